@@ -63,6 +63,90 @@ def inst_fragment_flags(cx, iid):
             inst.violation(pq.path, "ack flag addressing (test)", "fragment_acknowledged tests `%s`; expected the same word i/64, bit i%%64 as acknowledge_fragment" % q)
 
 
+def inst_sizes(cx, iid):
+    R = cx.R
+    with cx.instance(iid, "T7 SHAPE + T4 SIBLING", "fragment count, sender slices and receiver copy offsets use one stride constant; finalize returns total_size bytes", floor=6) as inst:
+        pn = R.body("PendingPacket::new")
+        lf = None
+        for loc, s in pn.assigns():
+            rv = s["rv"]
+            if rv["k"] == "agg" and rv.get("adt", "").endswith("PendingPacket"):
+                lf = pn.operand_expr(rv["ops"][rv["fields"].index("last_fragment_id")])
+        got = acnf(lf) if lf else None
+        M = R.const_int("MAX_FRAGMENT_SIZE")
+        inst.site(pn, None, "last_fragment_id = " + str(got))
+        want = "(-1 + 1*1/(%d)*(-1 + %d + [T]::len(arg1)) + eq(0,[T]::len(arg1)))" % (M, M)
+        from rules import poly_str as _ps
+        if got is None or _ps(lf) != "-1 + eq(0,[T]::len(arg1)) + idiv(%d + [T]::len(arg1),%d)" % (M - 1, M):
+            inst.violation(pn.path, "fragment count", "last_fragment_id is `%s`, expected ceil(len / MAX_FRAGMENT_SIZE) + (len == 0) - 1" % (show(lf) if lf else None))
+        dg = R.body("PendingPacket::datagram")
+        fa = cx.fa(dg)
+        # the slice a fragment is cut from, compared as polynomials (i*M .. (i+1)*M  ==  b .. b + M with b = i*M)
+        from rules import poly_str, case_values
+        forms = {}
+        for loc, kind, node in [(l, k, n) for v in dg.defs.values() for (l, k, n) in v]:
+            if kind != "assign":
+                continue
+            ex = dg.rvalue_expr(node["rv"])
+            if not show(ex).startswith("arg1.data[Range"):
+                continue
+            last, _ = dnf_holds(fa.at(loc), [[r"eq\(arg1\.last_fragment_id,arg2\)"]])
+            rng = ex[2][-1][1]  # the index element of the projection: an aggregate Range / RangeFrom
+            forms["last" if last else "inner"] = (rng[1], [poly_str(o) for o in rng[2]])
+        inst.site(dg, None, "sender slices: %s" % forms)
+        Mv = R.const_int("MAX_FRAGMENT_SIZE")
+        if forms.get("last") != ("RangeFrom", ["%d*arg2" % Mv]):
+            inst.violation(dg.path, "last fragment slice", "last fragment is `%s`, expected data[i*M ..]" % (forms.get("last"),))
+        if forms.get("inner") != ("Range", ["%d*arg2" % Mv, "%d + %d*arg2" % (Mv, Mv)]):
+            inst.violation(dg.path, "inner fragment slice", "inner fragment is `%s`, expected data[i*M .. (i+1)*M]" % (forms.get("inner"),))
+        fw = R.body(FB + "write")
+        cps = call_sites(fw, "[T]::copy_from_slice")
+        for loc, lab in cps:
+            e = show(fw.call_expr(fw.node_at(loc)))
+            inst.site(fw, loc, "receiver copy: " + e[:110])
+            ce = fw.call_expr(fw.node_at(loc))
+            okc = False
+            try:
+                dst, srcv = ce[2][0], ce[2][1]
+                rng = dst[2][-1][1]
+                okc = (show(srcv) == "arg3" and show(("proj", dst[1], tuple(dst[2][:-1]))) == "arg1.buffer" and rng[1] == "Range"
+                       and [poly_str(o) for o in rng[2]] == ["%d*arg2" % Mv, "[T]::len(arg3) + %d*arg2" % Mv])
+            except Exception:
+                okc = False
+            if not okc:
+                inst.violation(fw.path, "copy destination", "fragment is copied with `%s`, expected buffer[i*M .. i*M + len] <- data" % e[:160], at=fw.span_at(loc))
+        if len(cps) != 1:
+            inst.violation(fw.path, "copy_from_slice", "expected exactly one copy in FragmentBuffer::write")
+        fn = R.body(FB + "new")
+        txt = " ".join(show(fn.call_expr(t)) for l, t in fn.calls("vec::from_elem"))
+        inst.site(fn, None, "buffer allocation: " + txt[:100])
+        if "vec::from_elem(0,mul(MAX_FRAGMENT_SIZE,arg1))" not in txt:
+            inst.violation(fn.path, "buffer size", "reassembly buffer is not num_fragments * MAX_FRAGMENT_SIZE bytes")
+        ff = R.body(FB + "finalize")
+        tr = [show(ff.call_expr(t)) for l, t in ff.calls("Vec::truncate")]
+        inst.site(ff, None, "finalize: " + " ".join(tr))
+        ret = [show(ff.call_expr(t)) for l, t in ff.calls("Vec::into_boxed_slice")]
+        if len(tr) != 1 or not re.fullmatch(r"Vec::truncate\((var\d+),arg1\.total_size\)", tr[0]) or len(ret) != 1:
+            inst.violation(ff.path, "finalize", "finalize does not return exactly the first total_size bytes of the buffer: %s" % tr)
+        ta = R.body("AssemblyWindow::try_add")
+        n_ae = 0
+        for loc, t in ta.calls("ActiveEntry::new"):
+            n_ae += 1
+            a = show(ta.operand_expr(t["args"][5]))
+            lf2 = show(ta.operand_expr(t["args"][4]))
+            inst.site(ta, loc, "ActiveEntry::new(.., last=%s, num_fragments=%s)" % (lf2, a))
+            if a != "add(1,cast<usize>(arg3.fragment_id_last))" or lf2 != "arg3.fragment_id_last":
+                inst.violation(ta.path, "num_fragments", "reassembly entry created for `%s` fragments (last id `%s`), expected fragment_id_last + 1" % (a, lf2), at=ta.span_at(loc))
+        ae = R.body("assembly_window::ActiveEntry::new")
+        fbn = [show(ae.call_expr(t)) for l, t in ae.calls("FragmentBuffer::new")]
+        if n_ae != 1 or fbn != ["FragmentBuffer::new(arg6)"]:
+            inst.violation(ae.path, "FragmentBuffer::new", "the reassembly buffer is not sized from the entry's fragment count: %s" % fbn)
+        for loc, t in ta.calls("FragmentBuffer::write"):
+            a = show(ta.operand_expr(t["args"][1]))
+            if a != "cast<usize>(arg3.fragment_id)":
+                inst.violation(ta.path, "write index", "fragment written at index `%s`" % a, at=ta.span_at(loc))
+
+
 def run(cx):
     R = cx.R
     with cx.instance("C04.a", "T9 CONST", "size constants agree with the writers' literal header lengths; a full fragment fits a frame; MAX_PACKET_SIZE = M * 2^16", floor=6) as inst:
@@ -126,70 +210,7 @@ def run(cx):
         ae = R.body("frame::serial::build::AckFrameBuilder::encoded_size")
         if show(ae.local_expr(0)) != "frame::serial::ACK_GROUP_SIZE":
             inst.violation(ae.path, "encoded_size", "AckFrameBuilder::encoded_size is `%s`" % show(ae.local_expr(0)))
-    with cx.instance("C04.c", "T7 SHAPE + T4 SIBLING", "fragment count, sender slices and receiver copy offsets use one stride constant; finalize returns total_size bytes", floor=6) as inst:
-        pn = R.body("PendingPacket::new")
-        lf = None
-        for loc, s in pn.assigns():
-            rv = s["rv"]
-            if rv["k"] == "agg" and rv.get("adt", "").endswith("PendingPacket"):
-                lf = pn.operand_expr(rv["ops"][rv["fields"].index("last_fragment_id")])
-        got = acnf(lf) if lf else None
-        M = R.const_int("MAX_FRAGMENT_SIZE")
-        inst.site(pn, None, "last_fragment_id = " + str(got))
-        want = "(-1 + 1*1/(%d)*(-1 + %d + [T]::len(arg1)) + eq(0,[T]::len(arg1)))" % (M, M)
-        if got is None or show(lf) != "cast<u16>(sub(add(cast<usize>(eq(0,[T]::len(arg1))),div(sub(add(MAX_FRAGMENT_SIZE,[T]::len(arg1)),1),MAX_FRAGMENT_SIZE)),1))":
-            inst.violation(pn.path, "fragment count", "last_fragment_id is `%s`, expected ceil(len / MAX_FRAGMENT_SIZE) + (len == 0) - 1" % (show(lf) if lf else None))
-        dg = R.body("PendingPacket::datagram")
-        fa = cx.fa(dg)
-        forms = {}
-        for loc, kind, node in [(l, k, n) for v in dg.defs.values() for (l, k, n) in v]:
-            if kind == "assign":
-                e = show(dg.rvalue_expr(node["rv"]))
-                if e.startswith("arg1.data[Range"):
-                    last, _ = dnf_holds(fa.at(loc), [[r"eq\(arg1\.last_fragment_id,arg2\)"]])
-                    forms["last" if last else "inner"] = e
-        inst.site(dg, None, "sender slices: %s" % forms)
-        if forms.get("last") != "arg1.data[RangeFrom{mul(MAX_FRAGMENT_SIZE,cast<usize>(arg2))}]":
-            inst.violation(dg.path, "last fragment slice", "last fragment is `%s`, expected data[i*M ..]" % forms.get("last"))
-        if forms.get("inner") != "arg1.data[Range{mul(MAX_FRAGMENT_SIZE,cast<usize>(arg2)),mul(MAX_FRAGMENT_SIZE,add(1,cast<usize>(arg2)))}]":
-            inst.violation(dg.path, "inner fragment slice", "inner fragment is `%s`, expected data[i*M .. (i+1)*M]" % forms.get("inner"))
-        fw = R.body(FB + "write")
-        cps = call_sites(fw, "[T]::copy_from_slice")
-        for loc, lab in cps:
-            e = show(fw.call_expr(fw.node_at(loc)))
-            inst.site(fw, loc, "receiver copy: " + e[:110])
-            if e != "[T]::copy_from_slice(arg1.buffer[Range{mul(MAX_FRAGMENT_SIZE,arg2),add([T]::len(arg3),mul(MAX_FRAGMENT_SIZE,arg2))}],arg3)":
-                inst.violation(fw.path, "copy destination", "fragment is copied with `%s`, expected buffer[i*M .. i*M + len] <- data" % e[:160], at=fw.span_at(loc))
-        if len(cps) != 1:
-            inst.violation(fw.path, "copy_from_slice", "expected exactly one copy in FragmentBuffer::write")
-        fn = R.body(FB + "new")
-        txt = " ".join(show(fn.call_expr(t)) for l, t in fn.calls("vec::from_elem"))
-        inst.site(fn, None, "buffer allocation: " + txt[:100])
-        if "vec::from_elem(0,mul(MAX_FRAGMENT_SIZE,arg1))" not in txt:
-            inst.violation(fn.path, "buffer size", "reassembly buffer is not num_fragments * MAX_FRAGMENT_SIZE bytes")
-        ff = R.body(FB + "finalize")
-        tr = [show(ff.call_expr(t)) for l, t in ff.calls("Vec::truncate")]
-        inst.site(ff, None, "finalize: " + " ".join(tr))
-        ret = [show(ff.call_expr(t)) for l, t in ff.calls("Vec::into_boxed_slice")]
-        if len(tr) != 1 or not re.fullmatch(r"Vec::truncate\((var\d+),arg1\.total_size\)", tr[0]) or len(ret) != 1:
-            inst.violation(ff.path, "finalize", "finalize does not return exactly the first total_size bytes of the buffer: %s" % tr)
-        ta = R.body("AssemblyWindow::try_add")
-        n_ae = 0
-        for loc, t in ta.calls("ActiveEntry::new"):
-            n_ae += 1
-            a = show(ta.operand_expr(t["args"][5]))
-            lf2 = show(ta.operand_expr(t["args"][4]))
-            inst.site(ta, loc, "ActiveEntry::new(.., last=%s, num_fragments=%s)" % (lf2, a))
-            if a != "add(1,cast<usize>(arg3.fragment_id_last))" or lf2 != "arg3.fragment_id_last":
-                inst.violation(ta.path, "num_fragments", "reassembly entry created for `%s` fragments (last id `%s`), expected fragment_id_last + 1" % (a, lf2), at=ta.span_at(loc))
-        ae = R.body("assembly_window::ActiveEntry::new")
-        fbn = [show(ae.call_expr(t)) for l, t in ae.calls("FragmentBuffer::new")]
-        if n_ae != 1 or fbn != ["FragmentBuffer::new(arg6)"]:
-            inst.violation(ae.path, "FragmentBuffer::new", "the reassembly buffer is not sized from the entry's fragment count: %s" % fbn)
-        for loc, t in ta.calls("FragmentBuffer::write"):
-            a = show(ta.operand_expr(t["args"][1]))
-            if a != "cast<usize>(arg3.fragment_id)":
-                inst.violation(ta.path, "write index", "fragment written at index `%s`" % a, at=ta.span_at(loc))
+    inst_sizes(cx, "C04.c")
     with cx.instance("C04.d", "T1 GUARD", "first write of a fragment wins; later fragments must agree with the first on channel, parent leads and last fragment id", floor=4) as inst:
         fw = R.body(FB + "write")
         bit = r"eq\(0,bitand\(arg1\.fragment_bitfields\[div\(arg2,64\)\],shl\(1,rem\(arg2,64\)\)\)\)"
@@ -229,6 +250,8 @@ def run(cx):
                     inst.violation(sb.path, "send() refusal", "send() panics on a path where neither len > max_packet_size nor channel >= CHANNEL_COUNT is established", at=sb.span_at(l), detail={"facts_on_offending_path": sorted(bad)[:6] if bad else []})
             if n != 2:
                 inst.violation(sb.path, "send() refusals", "expected the two documented refusals in send(), found %d panic sites" % n)
+    from props.C02 import inst_resync_guard
+    inst_resync_guard(cx, "C04.j")
     from props.shared import window_walks
     window_walks(cx, "C04.g")
     from props.C05 import fragment_enumeration
